@@ -2,6 +2,10 @@
 """Generates MANIFEST.json. Edit BUILT / texts here, run, commit."""
 import json
 BUILT = {
+ "C11": dict(level="exploration", technique="bounded-exhaustive enumeration of wrong-typed values x directive positions, include graphs (all cycle shapes) and hostile token-string sources, in isolated worker subprocesses with panic recovery, stack cap and CPU-time watchdog",
+   text="45 directive positions x 38 Go values of every kind through two entry points; all include graphs over 3 files with up to 2 edges per file in up to 6 inclusion modes (must return, with an error iff a cycle is reachable); every token string of length <=3 (thorough 4) over a 20-token alphabet as template source through 3 entry points and as front-matter. Each case runs under recover(), a 64 MiB stack cap and a CPU-time budget in a worker whose death is attributed to the case in flight.",
+   note="Trusts the worker isolation in engine/core (crash and hang attribution by a progress slot). Panics inside user-registered functions and cyclic maps/slices are out of scope. Layout cycles are C07's.",
+   ref="DESIGN.md §3 C11"),
  "C12": dict(level="fault_enumeration", engine="enum", technique="exhaustive fault-position enumeration: a destination writer failing at every byte offset (two failure styles) and a cancelled context, for every catalogue program and entry point",
    text="31 catalogue programs (succeeding and failing early, late, inside an include, inside a layout) x 5 entry points x {healthy recording writer, cancelled context, writer refusing / short-writing at every byte offset of the reference output}. Error => nothing written; nil => exactly the reference bytes; any writer failure => non-nil error.",
    note="Trusts the catalogue (checks/catalog.go). Writers that return n < len(p) with a nil error are out of scope. The reference bytes are the implementation's own output into a bytes.Buffer.",
